@@ -58,7 +58,7 @@ pub fn spec(args: &[String]) -> i32 {
             3 => g.edge_rule(),
             _ => { let k = 1 + g.rng.below(12); noise(&mut g, k) }
         }).collect();
-        let words: Vec<String> = (0..1 + g.rng.below(3)).map(|_| if stream == 3 { g.small_word() } else { match g.rng.below(10) { 0 => { let k = g.rng.below(8); noise(&mut g, k) }, 1 => { let w = g.word(); mutate(&mut g, &w) }, 2 => g.small_word(), _ => g.word() } }).collect();
+        let words: Vec<String> = (0..1 + g.rng.below(3)).map(|_| if stream == 3 { let mut t = g.small_word(); if g.rng.chance(1, 2) { t = format!("{t}.{}", g.small_word()); } if g.rng.chance(1, 3) { t = format!("{t}.{}", ["a", "i", "ta", "n"][g.rng.below(4)]); } t } else { match g.rng.below(10) { 0 => { let k = g.rng.below(8); noise(&mut g, k) }, 1 => { let w = g.word(); mutate(&mut g, &w) }, 2 => g.small_word(), _ => g.word() } }).collect();
         let into: Vec<String> = if g.rng.chance(1, 8) { vec![if g.rng.chance(1, 3) { let k = g.rng.below(8); noise(&mut g, k) } else { alias_line(&mut g, true) }] } else { vec![] };
         let from: Vec<String> = if g.rng.chance(1, 8) { vec![if g.rng.chance(1, 3) { let k = g.rng.below(8); noise(&mut g, k) } else { alias_line(&mut g, false) }] } else { vec![] };
         let groups = [RuleGroup::from("g", rules.clone(), "")];
@@ -106,7 +106,7 @@ pub fn spec(args: &[String]) -> i32 {
             let inp_has_bound = rule_for_label.split(|c| c == '>').next().map_or(false, |i| i.contains('$'));
             let inp_part = rule_for_label.split(|c| c == '>' || c == '→' || c == '=' || c == '-').next().unwrap_or("");
             let has_empty_input_term = inp_part.split(',').any(|t| { let t = t.trim(); t == "*" || t == "∅" });
-            let rtype = if rule_for_label.replace(' ', "").contains("(,") { "empty-optional" } else if head.starts_with('*') || head.starts_with('∅') || has_empty_input_term { "insertion" } else if inp_has_bound && !rule_for_label.contains('&') && !rule_for_label.contains("> *") && !rule_for_label.contains("> ∅") { "substitution-with-boundary-input" } else if rule_for_label.contains('&') { "metathesis" } else if rule_for_label.contains("> *") || rule_for_label.contains("> ∅") { if inp_has_bound { "deletion-with-boundary-input" } else { "deletion" } } else { "substitution" };
+            let rtype = if rule_for_label.replace(' ', "").contains("(,") { "empty-optional" } else if rule_for_label.replace(' ', "").contains("($,0)") { "boundary-only-unbounded-optional" } else if head.starts_with('*') || head.starts_with('∅') || has_empty_input_term { "insertion" } else if inp_has_bound && !rule_for_label.contains('&') && !rule_for_label.contains("> *") && !rule_for_label.contains("> ∅") { "substitution-with-boundary-input" } else if rule_for_label.contains('&') { "metathesis" } else if rule_for_label.contains("> *") || rule_for_label.contains("> ∅") { if inp_has_bound { "deletion-with-boundary-input" } else { "deletion" } } else { "substitution" };
             let kind = if let Some(p) = what.strip_prefix("panic ") {
                 let (msg, loc) = match p.rsplit_once(" @ ") { Some((m, l)) => (m, l), None => (p, "?") };
                 let mc = if msg.contains("PosOverflow") { "number-too-large" } else if msg.contains("index out of bounds") || msg.contains("out of range") { "index-out-of-bounds" } else if msg.contains("None") { "unwrap-none" } else if msg.contains("capacity overflow") || msg.contains("subtract with overflow") { "arithmetic" } else if msg.contains("not implemented") || msg.contains("unreachable") { "unimplemented-or-unreachable" } else { "other" };
